@@ -12,8 +12,9 @@ methods with the same arguments in the same order.
    bound) and `ctor_eq_methods_obj`; the locality lemma `call_local`; `ctor_raises_*`.
    Hypotheses: the plain load succeeds and is `Booked` (its counts describe its events — what C01/C02 state for
    well-formed files; the driver evaluates this on every generated file), the calls are admissible (`AdmChain`,
-   one constructor per specification of Props/C03) and the data admissible for them (`DataOK`: PDG ids present
-   if a species filter occurs, `|z| < t` if the space-time rapidity cut occurs).
+   one constructor per specification of Props/C03) and the data admissible for them (`DataOK`: `|z| < t` if the
+   space-time rapidity cut occurs — the documented `ValueError`; particles without PDG id need no exclusion: the
+   species filters drop them since /repo 9f9a2e0).
 4. The dictionary-level event filter executed by the driver equals the call-level one of the theorems
    (`ctorFilterDict_eq`); unknown keys at the constructor (`unknown_key_rejected_oscar/_jetscape`).
 -/
@@ -334,19 +335,16 @@ theorem ctor_eq_methods_obj (calls : List (Call α)) (ss : List (Sem α)) (hadm 
 /-- **the locality lemma** behind it, for every admissible call: after deleting the empty events, the call acts
 on every event separately (the `[[]]` placeholder of the event-level cuts is an empty event like any other) -/
 theorem call_local {c : Call α} {s : Sem α} (h : Adm ofNat c s) (evs : Evs α)
-    (hp : needsPdg c = true → PdgSet evs) (he : needsEtas c = true → EtasDefined evs) :
+    (he : needsEtas c = true → EtasDefined evs) :
     ∃ r, applyCall ofNat c evs = .ok r ∧
       nonempty r = evs.flatMap (fun e => nonempty (s.run [e])) ∧
       ∀ e ∈ evs, applyCall ofNat c [e] = .ok (s.run [e]) := by
-  refine ⟨s.run evs, adm_spec ofNat h evs hp he, run_local s evs, ?_⟩
+  refine ⟨s.run evs, adm_spec ofNat h evs he, run_local s evs, ?_⟩
   intro e hevs
   apply adm_spec ofNat h [e]
-  · intro hn e' he' p hpp
-    simp only [List.mem_singleton] at he'; subst he'
-    exact hp hn e' hevs p hpp
-  · intro hn e' he' p hpp
-    simp only [List.mem_singleton] at he'; subst he'
-    exact he hn e' hevs p hpp
+  intro hn e' he' p hpp
+  simp only [List.mem_singleton] at he'; subst he'
+  exact he hn e' hevs p hpp
 
 /-- an unknown key (or any dictionary whose dispatch raises) makes the constructor raise as soon as one event
 ends — it is not silently ignored -/
@@ -520,7 +518,7 @@ example : AdmChain (fun n => (n : Int)) chain0
   .cons .charged (.cons (.pT (some 1) none (by simp) (by simp [nonnegO]) trivial)
     (.cons (.multiplicityFrom 2 (by decide)) .nil))
 
-example : DataOK chain0 evs0 := ⟨fun h => by simp [chain0, needsPdg] at h, fun h => by simp [chain0, needsEtas] at h⟩
+example : DataOK chain0 evs0 := fun h => by simp [chain0, needsEtas] at h
 
 /-- … on which the two paths really differ before the empty events are deleted and agree afterwards -/
 example : (objCtor (fun n => (n : Int)) chain0 evs0).toOption.map partIds = some [[], [], [], [0, 0]] ∧
